@@ -61,19 +61,20 @@ Definition b_get_func (r : reg) (n : name) : list def :=
   | None => if has_bslash n then olist (aget (fn r) (strip n)) else []
   end.
 
-(* AddClass / AddInterface: a name already in classMap or interfaceMap is rejected unless it comes
-   from the same file (then: silently skipped); AddFunc: any duplicate rejected *)
+(* AddClass / AddInterface: a name already registered under the SAME kind is rejected unless it comes
+   from the same file (then: silently skipped); a name taken by the other kind is always rejected
+   (fix 0d5ed75); AddFunc: any duplicate rejected *)
 Definition b_add (r : reg) (k : kind) (n : name) (d : def) : reg * bool :=
   match k with
   | KC => match aget (cls r) n with
           | Some h => (r, Z.eqb d h)
           | None => match aget (ifc r) n with
-                    | Some h => (r, Z.eqb d h)
+                    | Some _ => (r, false)
                     | None => ({| cls := aset (cls r) n d; ifc := ifc r; fn := fn r |}, true)
                     end
           end
   | KI => match aget (cls r) n with
-          | Some h => (r, Z.eqb d h)
+          | Some _ => (r, false)
           | None => match aget (ifc r) n with
                     | Some h => (r, Z.eqb d h)
                     | None => ({| cls := cls r; ifc := aset (ifc r) n d; fn := fn r |}, true)
